@@ -105,13 +105,26 @@ def cache_protocol():
     if n_assign != len(mapping):
         raise Unsupported("angular.AngularGrid.__init__: cache_dict assigned outside the method chain")
     # the lookup
-    look = [s for s in body if isinstance(s, ast.If) and ast.unparse(s.test) in ("degree not in cache_dict", "degree in cache_dict")]
+    def has_load(stmts):
+        return any(isinstance(n, ast.Call) and ast.unparse(n.func) == "self._load_precomputed_angular_grid" for st in stmts for n in ast.walk(st))
+    look = [s for s in body if isinstance(s, ast.If) and ast.unparse(s.test) in ("degree not in cache_dict", "degree in cache_dict")
+            and (has_load(s.body) or has_load(s.orelse))]
     if len(look) != 1:
-        raise Unsupported("angular.AngularGrid.__init__: cache lookup `degree [not] in cache_dict` not found exactly once")
+        raise Unsupported("angular.AngularGrid.__init__: cache lookup `degree [not] in cache_dict` around the loader not found exactly once")
     look = look[0]
     miss, hit = (look.body, look.orelse) if ast.unparse(look.test) == "degree not in cache_dict" else (look.orelse, look.body)
-    resolve = [i for i, s in enumerate(body) if isinstance(s, ast.Assign) and ast.unparse(s.targets[0]) == "(degree, size)"
-               and ast.unparse(s.value).startswith("self._get_degree_and_size(")]
+    # the request is resolved through the tables by `_get_degree_and_size`: where, under which condition, with which arguments
+    res_nodes = [n for n in ast.walk(init) if isinstance(n, ast.Assign) and isinstance(n.value, ast.Call)
+                 and ast.unparse(n.value.func) == "self._get_degree_and_size"]
+    if len(res_nodes) != 1 or ast.unparse(res_nodes[0].targets[0]) != "(degree, size)":
+        raise Unsupported("angular.AngularGrid.__init__: `degree, size = self._get_degree_and_size(...)` not found exactly once")
+    resolve = [i for i, s in enumerate(body) if s is res_nodes[0]]
+    resolve_unconditional = len(resolve) == 1
+    kw = {k.arg: ast.unparse(k.value) for k in res_nodes[0].value.keywords}
+    resolve_args_plain = (not res_nodes[0].value.args) and kw == {"degree": "degree", "size": "size", "method": "method"}
+    size_clears = any(isinstance(s, ast.If) and ast.unparse(s.test) == "size is not None" and not s.orelse
+                      and any(isinstance(x, ast.Assign) and ast.unparse(x) == "degree = None" for x in s.body)
+                      and (not resolve or body.index(s) < resolve[0]) for s in body)
     key_resolved = len(resolve) == 1 and resolve[0] < body.index(look) and not any(
         isinstance(n, ast.Name) and n.id == "degree" and isinstance(n.ctx, ast.Store)
         for s in body[resolve[0] + 1:] for n in ast.walk(s))
@@ -128,10 +141,18 @@ def cache_protocol():
     if not hit_ok:
         raise Unsupported("angular.AngularGrid.__init__: the hit branch is not `points, weights = cache_dict[degree]`")
     # nothing else may touch cache_dict
-    uses = sum(1 for n in ast.walk(init) if isinstance(n, ast.Name) and n.id == "cache_dict")
-    if uses != len(mapping) + 3:
-        raise Unsupported(f"angular.AngularGrid.__init__: cache_dict used {uses} times, expected {len(mapping) + 3}")
-    return dict(mapping=mapping, normalised=normalised, key_resolved=key_resolved, guarded=guarded)
+    # every use of cache_dict is one of: the chain, a membership test of `degree`, the store, the hit read
+    par = _parents(init)
+    for n in ast.walk(init):
+        if isinstance(n, ast.Name) and n.id == "cache_dict":
+            p_ = par.get(id(n))
+            ok = (isinstance(n.ctx, ast.Store) and isinstance(p_, ast.Assign)) \
+                or (isinstance(p_, ast.Compare) and ast.unparse(p_) in ("degree not in cache_dict", "degree in cache_dict")) \
+                or (isinstance(p_, ast.Subscript) and ast.unparse(p_) == "cache_dict[degree]")
+            if not ok:
+                raise Unsupported(f"angular.AngularGrid.__init__: use of cache_dict not recognised: {ast.unparse(p_)[:80]}")
+    return dict(mapping=mapping, normalised=normalised, key_resolved=key_resolved, guarded=guarded,
+                resolve_unconditional=resolve_unconditional, resolve_args_plain=resolve_args_plain, size_clears=size_clears)
 
 
 CHECKS = {}     # class -> (order of assignment and zero check, strict comparison?, threshold); filled by b_machine()
@@ -173,6 +194,84 @@ def t1d_order():
         else:
             tags.append("return" if isinstance(st, ast.Return) and not calls else "plain")
     return tags
+
+
+def shell_grid_flows():
+    """`AtomGrid.get_shell_grid` statement by statement: for the branch `rotate == 0` and the branch `rotate != 0`, where do the
+    arrays stored into the returned grid (`sphere_grid.points = ...`, `sphere_grid.weights = ...`) come from: a new array
+    (`.copy()`, arithmetic, a call) or an array the atomic grid keeps (an attribute of `self` or a slice of one)?
+    -> [(branch, field, fresh, description)]"""
+    tree = ast.parse((SRC / "atomgrid.py").read_text())
+    cls = next(n for n in tree.body if isinstance(n, ast.ClassDef) and n.name == "AtomGrid")
+    fn = next(n for n in cls.body if isinstance(n, ast.FunctionDef) and n.name == "get_shell_grid")
+    body = [st for st in fn.body if not (isinstance(st, ast.Expr) and isinstance(st.value, ast.Constant))]
+
+    def root(e):
+        while isinstance(e, (ast.Subscript, ast.Attribute)):
+            e = e.value
+        return e
+
+    def kind(e, env):
+        if isinstance(e, ast.Name):
+            return env.get(e.id, (True, "argument:" + e.id)) if e.id != "self" else (False, "self")
+        if isinstance(e, (ast.BinOp, ast.UnaryOp, ast.Compare, ast.Constant, ast.BoolOp)):
+            return (True, "arithmetic")
+        if isinstance(e, ast.Call):
+            f = e.func
+            if isinstance(f, ast.Attribute) and f.attr == "copy" and not e.args:
+                return (True, "copy")
+            if isinstance(f, ast.Attribute) and f.attr in ("dot", "astype", "as_matrix", "random"):
+                return (True, "call:" + f.attr)
+            if ast.unparse(f) in ("AngularGrid", "np.array", "np.copy", "np.dot", "np.matmul"):
+                return (True, "call:" + ast.unparse(f))
+            raise Unsupported(f"atomgrid.AtomGrid.get_shell_grid: call not classified: {ast.unparse(e)[:80]}")
+        if isinstance(e, (ast.Subscript, ast.Attribute)):
+            r = root(e)
+            if isinstance(r, ast.Name) and r.id == "self":
+                return (False, "kept by the atomic grid: " + ast.unparse(e)[:60])
+            if isinstance(r, ast.Name):
+                b = env.get(r.id, (True, ""))
+                return (False, f"part of {r.id}: " + ast.unparse(e)[:50]) if isinstance(e, ast.Subscript) or not b[0] else (False, "array of " + r.id)
+            raise Unsupported(f"atomgrid.AtomGrid.get_shell_grid: expression not classified: {ast.unparse(e)[:80]}")
+        raise Unsupported(f"atomgrid.AtomGrid.get_shell_grid: expression not classified: {ast.unparse(e)[:80]}")
+
+    def run(stmts, env, rotated, out):
+        for st in stmts:
+            if isinstance(st, ast.If):
+                t = ast.unparse(st.test)
+                if all(isinstance(x, ast.Raise) for x in st.body) and not st.orelse:
+                    continue
+                if t in ("self.rotate != 0", "self._rot != 0", "self.rotate"):
+                    run(st.body if rotated else st.orelse, env, rotated, out)
+                elif t in ("self.rotate == 0", "self._rot == 0", "not self.rotate"):
+                    run(st.orelse if rotated else st.body, env, rotated, out)
+                else:
+                    e1, e2 = dict(env), dict(env)
+                    run(st.body, e1, rotated, out)
+                    run(st.orelse, e2, rotated, out)
+                    for k in set(e1) | set(e2):
+                        a, b = e1.get(k, (True, "")), e2.get(k, (True, ""))
+                        env[k] = a if not a[0] else b if not b[0] else a
+            elif isinstance(st, ast.Assign) and len(st.targets) == 1 and isinstance(st.targets[0], ast.Name):
+                env[st.targets[0].id] = kind(st.value, env)
+            elif isinstance(st, ast.Assign) and len(st.targets) == 1 and isinstance(st.targets[0], ast.Attribute) \
+                    and isinstance(st.targets[0].value, ast.Name) and st.targets[0].value.id != "self":
+                out.append((st.targets[0].attr, kind(st.value, env)))
+            elif isinstance(st, ast.Return):
+                out.append(("return", (True, ast.unparse(st.value) if st.value is not None else "None")))
+            else:
+                raise Unsupported(f"atomgrid.AtomGrid.get_shell_grid: statement not carried: {ast.unparse(st)[:80]}")
+    flows = []
+    for rotated in (False, True):
+        out = []
+        run(body, {}, rotated, out)
+        ret = [o for o in out if o[0] == "return"]
+        if len(ret) != 1 or ret[0][1][1] != "sphere_grid":
+            raise Unsupported("atomgrid.AtomGrid.get_shell_grid: does not return the local grid object `sphere_grid`")
+        for field, (fresh, txt) in out:
+            if field != "return":
+                flows.append(("rotate != 0" if rotated else "rotate == 0", field, fresh, txt))
+    return flows
 
 
 def b_machine():
@@ -289,6 +388,12 @@ def generate():
     parts.append(f"def methodNormalised : Bool := {tb(cp['normalised'])}\n")
     parts.append("/-- the key `degree` is the one resolved by `_get_degree_and_size` and is not reassigned before the lookup / store -/")
     parts.append(f"def keyResolvedBeforeLookup : Bool := {tb(cp['key_resolved'])}\n")
+    parts.append("/-- `degree, size = self._get_degree_and_size(...)` is a top-level statement of the constructor: executed on every path, whatever the cache holds -/")
+    parts.append(f"def resolveUnconditional : Bool := {tb(cp['resolve_unconditional'])}\n")
+    parts.append("/-- it is called with `degree=degree, size=size, method=method` and nothing else -/")
+    parts.append(f"def resolveArgsPlain : Bool := {tb(cp['resolve_args_plain'])}\n")
+    parts.append("/-- before it, `if size is not None: ... degree = None`: a size request drops the degree -/")
+    parts.append(f"def sizeClearsDegree : Bool := {tb(cp['size_clears'])}\n")
     parts.append("/-- on a miss the loaded pair is stored only under `if cache:` -/")
     parts.append(f"def storeGuardedByCacheFlag : Bool := {tb(cp['guarded'])}\n")
     for cls, (shape, callers, writers, nocall) in bm.items():
@@ -322,6 +427,10 @@ def generate():
                  "(which may fix the remembered scale), `call+raise:`, `plain`, `return`; each as (calls a method, contains a raise, description) -/")
     parts.append("def t1dStatements : List StmtTag := [" + ", ".join(
         f'({tb(t.startswith("call"))}, {tb(t.startswith("raise") or t.startswith("call+raise"))}, "{t}")' for t in t1d_order()) + "]\n")
+    parts.append("/-- `AtomGrid.get_shell_grid`: per branch of the rotation test, the arrays stored into the returned grid: "
+                 "(branch, field, is a new array, where it comes from) -/")
+    parts.append("def shellGridFlows : List (String × String × Bool × String) := [" + ", ".join(
+        f'({_ls(b_)}, {_ls(fld)}, {tb(fr)}, {_ls(txt)})' for b_, fld, fr, txt in shell_grid_flows()) + "]\n")
     parts.append("def bClasses : List String := [" + ", ".join(f'"{c}"' for c in bm) + "]\n")
     parts.append("/-- `load_atomic_gaussian_params` builds its two result arrays anew from the JSON lists on every call. -/")
     parts.append(f"def coulombLoaderFresh : Bool := {tb(cf)}\n")
@@ -699,8 +808,11 @@ def module_state():
                 tv.append((s.target, s.value))
             elif isinstance(s, ast.AugAssign):
                 tv.append((s.target, s.value))
+            shared = None
             if isinstance(s, ast.Assign) and len(s.targets) > 1 and not _const_value(s.value):
-                raise Unsupported(f"{mod}: line {s.lineno}: several module-level names bound to one object: {ast.unparse(s)[:80]}")
+                # several module-level names bound to ONE object: carried in the kind (no registered cache has such a kind, so
+                # `module_objects_disciplined` / `cache_protocol_as_modelled` decide, instead of the translator refusing)
+                shared = "one object shared by " + " = ".join(ast.unparse(t) for t in s.targets)
             for t, v in tv:
                 names = []
                 if isinstance(t, ast.Name):
@@ -727,7 +839,7 @@ def module_state():
                             o["kind"] = "constant"
                     else:
                         o["const"] = False
-                        o["kind"] = _value_kind(val)
+                        o["kind"] = _value_kind(val) if shared is None else shared
     # globals rebound inside functions are state even when their initial value is a constant
     rebinds = []
     for mod, tree in trees.items():
